@@ -680,7 +680,11 @@ def roll_constant_waveforms(program: Loop, minimal_waveform_quanta: int, wavefor
         for child in program:
             roll_constant_waveforms(child, minimal_waveform_quanta, waveform_quantum, sample_rate)
     else:
-        waveform_quanta = (waveform.duration * sample_rate) // waveform_quantum
+        waveform_quanta = waveform.duration * sample_rate / waveform_quantum
+        if waveform_quanta.denominator != 1:
+            # not a whole number of quanta: rolling into repetitions of quanta would change the duration
+            return
+        waveform_quanta = int(waveform_quanta.numerator)
 
         # example
         # waveform_quanta = 15
@@ -710,6 +714,8 @@ def roll_constant_waveforms(program: Loop, minimal_waveform_quanta: int, wavefor
         # use the private properties to avoid invalidating the duration cache of the parent loop
         program._repetition_definition = program.repetition_definition * additional_repetition_count
         program._waveform = new_waveform
+        # the total duration is unchanged (parent caches stay valid) but the cached body duration of this leaf is not
+        program._cached_body_duration = None
 
 
 def _repeat_loop_measurements(begin_length_list: List[np.ndarray],
